@@ -70,6 +70,22 @@ def tlc(module, cfg, workdir, workers=8, timeout=1500, env=None, coverage=False,
     return rc, text, dt
 
 
+
+def prove(module, workdir, timeout=900):
+    """S (unbounded): a TLAPS proof under spec/proofs, checked by tlapm in a scratch copy."""
+    d = os.path.join(workdir, "tlaps")
+    shutil.rmtree(d, ignore_errors=True)
+    os.makedirs(d)
+    shutil.copy(os.path.join(SPEC, "proofs", module + ".tla"), d)
+    rc, text, dt = sh(["tlapm", "--threads", "8", module + ".tla"], timeout, cwd=d)
+    m = re.search(r"All (\d+) obligations? proved", text)
+    shutil.rmtree(d, ignore_errors=True)
+    if rc != 0 or not m:
+        sys.stdout.write(text[-3000:])
+        raise ToolError("TLAPS proof %s did not go through" % module)
+    log("S %s: %s obligations proved by tlapm, %.0fs" % (module, m.group(1), dt))
+    return {"module": "proofs/" + module, "cfg": "tlapm", "states": 0, "transitions": 0, "obligations": int(m.group(1))}
+
 def parse_counts(text):
     m = re.search(r"(\d+) states generated, (\d+) distinct states found", text)
     if not m:
